@@ -122,6 +122,9 @@ async fn serve(state: Arc<Mutex<K8s>>) -> SocketAddr {
                     let head = String::from_utf8_lossy(&buf[..end]).to_string();
                     buf.drain(..end);
                     let target = head.split(' ').nth(1).unwrap_or("").to_string();
+                    if std::env::var("C20_DEBUG").is_ok() {
+                        eprintln!("mock k8s: {target}");
+                    }
                     if !target.starts_with("/apis/agones.dev/v1/") || !target.contains("gameservers") {
                         let _ = sock.write_all(b"HTTP/1.1 404 Not Found\r\ncontent-length: 0\r\n\r\n").await;
                         continue;
@@ -521,6 +524,18 @@ fn run_history(spec: &Spec, counters: &(AtomicU64, AtomicU64)) -> Vec<(String, S
         check(&snap, &state.lock().unwrap().objects.clone(), 0, "initial list", &mut v);
         for (i, ev) in spec.history.iter().enumerate() {
             let label = format!("{ev:?}");
+            if !matches!(ev, Ev::Apply { .. } | Ev::Delete { .. } | Ev::Bookmark) {
+                // an event that is about the open watch needs one: the marker may have become visible through the
+                // LIST already, before the watcher got round to opening its watch (large fleets)
+                let t0 = Instant::now();
+                while state.lock().unwrap().watchers.is_empty() {
+                    if t0.elapsed() > Duration::from_secs(8) {
+                        v.push(("watch-not-reestablished".into(), format!("before step {} ({label}) no watch was open for 8 s", i + 1)));
+                        return v;
+                    }
+                    tokio::time::sleep(Duration::from_millis(5)).await;
+                }
+            }
             {
                 let mut st = state.lock().unwrap();
                 match ev {
@@ -842,7 +857,7 @@ pub fn run(cli: Cli) -> ! {
         let s = &specs[i];
         events.fetch_add(s.history.len() as u64, Ordering::Relaxed);
         for (k, t) in run_history(s, &counters) {
-            rep.violation(Violation { key: k, text: format!("{t}; history {}", serde_json::to_string(s).unwrap()), replay: json!({"spec": s}), weight: s.history.len() as u64 * 100 + s.initial.len() as u64 });
+            rep.violation(Violation { key: k, text: format!("{t}; history {}", { let h = serde_json::to_string(s).unwrap(); if h.len() > 700 { format!("{} ... ({} initial servers; in full in the replay file)", h.chars().take(300).collect::<String>(), s.initial.len()) } else { h } }), replay: json!({"spec": s}), weight: s.history.len() as u64 * 100 + s.initial.len() as u64 });
         }
     });
     rep.require("barriers reached", counters.0.load(Ordering::Relaxed), 50);
